@@ -251,8 +251,12 @@ def chain_program(rng, w, n, geometry='plain'):
 def directed_native_case(rng):
     """images + knobs aimed at the cold paths of the native loops. returns (w, case_segs, tags, knobs)"""
     kind = rng.choice(['cache-collision', 'page-straddle', 'window-edge', 'tiny-window-input', 'ring-flat-lane',
-                       'measured-input-edge', 'magic-collision'])
+                       'measured-input-edge', 'magic-collision', 'many-pages', 'top-self-mod'])
     knobs = {}
+    if kind == 'many-pages':
+        return many_pages_case(rng)
+    if kind == 'top-self-mod':
+        return top_self_mod_case(rng)
     if kind == 'cache-collision':
         w = rng.choice([32, 64])
         ww = w.bit_length() - 1
@@ -335,3 +339,64 @@ def directed_native_case(rng):
                 if rng.random() < 0.25:
                     sgm[2][i] = rng.choice([magic, magic ^ 1, magic ^ (1 << rng.randrange(64)), 1 << 63])
     return w2, case_segs, tags + ['directed:' + kind], knobs
+
+
+def many_pages_case(rng):
+    """a chain of ops, one per 16K-word page, over more pages than the native page table holds before it grows
+    (growth at 32, 64, 128 ... used slots); every op flips a data word of an EARLIER page, so lost pages show up in
+    the run and in the memory read back"""
+    w = rng.choice([32, 64, 64])
+    ww = w.bit_length() - 1
+    dw = 2 * w
+    n_pages = rng.choice([40, 70, 140, 300])
+    limit_pages = (1 << (w - ww)) >> 14
+    pages = [0]
+    pool = list(range(1, min(limit_pages, 4000)))
+    rng.shuffle(pool)
+    pages += pool[:n_pages - 1 - (4 if w == 64 else 0)]
+    if w == 64:
+        pages += [(1 << 26) + rng.randrange(1000), (1 << 36) + rng.randrange(1000), (1 << 40) + 5, (1 << 43) + 77]
+    pages = [p for p in pages if p < limit_pages]
+    segs = []
+    order = pages[:]                       # execution order = list order; page 0 first (op 0)
+    starts = {}
+    for p in order:
+        off = 0 if p == 0 else 2 * rng.randrange(0, 8000)
+        starts[p] = (p << 14) + off
+    for k, p in enumerate(order):
+        s = starts[p]
+        nxt = starts[order[k + 1]] << ww if k + 1 < len(order) else None
+        # flip target: the data word (third word) of an earlier page, else own data word
+        q = order[rng.randrange(0, k)] if k > 0 and rng.random() < 0.8 else p
+        f = ((starts[q] + 2) << ww) + rng.randrange(w)
+        if rng.random() < 0.1:
+            f = rng.choice([dw, dw + 1])
+        j = nxt if nxt is not None else (s << ww)            # the last op loops on itself (halt)
+        segs.append([s, 4, [f & ((1 << w) - 1), j & ((1 << w) - 1), rng.randrange(1 << min(w, 30)), 0]])
+    knobs = rng.choice([{'no_flat': True}, {'flat_max_words': 4}, {'flat_max_words': 1 << 14}, {'no_flat': True, 'last_ops': 3},
+                        {'flat_max_words': 2, 'measure': True}, {}])
+    return w, segs, ['directed:many-pages'], knobs
+
+
+def top_self_mod_case(rng):
+    """w=64: ops in the last op slot of the address space that modify their own words (the 'own words' halting test)"""
+    w, ww, dw = 64, 6, 128
+    top = (1 << 58) - 2                                     # word address of the last op
+    ip_top = top << ww
+    k = rng.randrange(7, 40)
+    variant = rng.choice(['own-jump-to-self', 'own-flip-word', 'own-jump-elsewhere', 'plain-self-loop'])
+    other = rng.choice([4, 6]) << ww
+    if variant == 'own-jump-to-self':
+        f_top, j_top = ip_top + w + k, ip_top ^ (1 << k)    # the flip turns the jump word into ip itself
+    elif variant == 'own-flip-word':
+        f_top, j_top = ip_top + rng.randrange(w), ip_top
+    elif variant == 'own-jump-elsewhere':
+        f_top, j_top = ip_top + w + k, other ^ (1 << k)
+    else:
+        f_top, j_top = (8 << ww) + 3, ip_top
+    mask = (1 << 64) - 1
+    seg0 = [0, 12, [rng.choice([0, dw + 1, (8 << ww) + 1]), ip_top, 0, 0, (9 << ww) + 2, other + dw if other == (4 << ww) else 0,
+                    rng.choice([dw, (10 << ww) + 5]), 6 << ww, 0, 0, 0, 0]]
+    segs = [seg0, [top, 2, [f_top & mask, j_top & mask]]]
+    knobs = rng.choice([{}, {'no_flat': True}, {'last_ops': 4}, {'measure': True}, {'flat_max_words': 8}, {'no_flat': True, 'last_ops': 2}])
+    return w, segs, ['directed:top-self-mod', 'top-of-address-space'], knobs
